@@ -289,6 +289,10 @@ impl SecondaryStorage {
 
         let entry = DropTableEntry { table_id };
 
+        // wait for a running compaction (or DELETE) of this table and keep later ones out
+        // until the drop is committed
+        let _guard = self.txn_mgr.lock_for_deletion(table_id.table_id).await;
+
         // contrary to create table, we first modify the catalog
         self.apply_drop_table(&entry)?;
         #[cfg(feature = "verif")]
